@@ -25,6 +25,10 @@ CLAIMED = {
          "Model checking of the quoting routine against the engine lexers (every name up to the tier's length over {a, \", `, ', \\, space, e-acute, ., ], [}), and trace validation of the real code: each recorded statement must lex to the same token sequence as the reference rendering, with a quoted-identifier token decoding to exactly the supplied name at the position(s) of the name. Positions written by separate code (index, constraint, FK names, PG enum cast) are explicit positions.",
          "Trusted: MySQL/PostgreSQL identifier lexical rules as modelled; TLC. Empty names and NUL outside the domain.",
          "§5 C04"),
+ "C05": ("Engine operator-precedence tables and a Pratt parser written in TLA+; TLC checks on the transcribed binary_expr/parenthesis-dropping model that every enumerated tree re-parses to itself, generates the trees, and re-parses the real renderings of the same and of random deeper trees; SQLite renderings evaluated on the real engine against a fully parenthesised reference",
+         "Bounded-exhaustive model checking over every (outer operator, inner operator, operand position) combination of all constructors (incl. BETWEEN/LIKE-ESCAPE/IN/IS/CAST encodings, PG and SQLite extension operators) under three precedence tables and option-more-parentheses, plus trace validation of the real rendering of every enumerated tree and of random trees to depth 5: TLC parses the recorded SQL with the engine's table and requires the tree that was built.",
+         "Trusted: the documented precedence/associativity tables as transcribed (MySQL's finer yacc operand classes not modelled); TLC; SQLite engine for the SQLite dialect.",
+         "§5 C05, Appendix C.2"),
 }
 NA = {
  "C20": "Type-level fact about Rust auto-traits decided only by rustc's trait solver; no state, transition or observable behaviour to model or trace (DESIGN.md §5 C20).",
